@@ -1041,3 +1041,7 @@ PROPS["C06"]["harness"].append("c06h")
 PROPS["C06"]["drivers"]["c06h"] = "drv_seq"
 PROPS["C06"]["rule"] += (" || c06h ('never hanging'): directed plans, retries 0-3 x fault {every send fails, TX never runs, oversize response leaves "
                          "RxBusy, all responses lost}: after exactly retries+1 expired deadlines the poll must answer Timeout(Pdu), not earlier, never pending forever")
+PROPS["C01"]["lean_modules"].append("EcModel.Props.C01Idx")
+MANIFEST_TEXT["C01"]["text"] += (" C01Idx: the index-window assumption made precise on ghost draw counters along histories (Window); markers_exact, "
+                                 "live_idx_unique (outstanding requests have distinct first indices), owner_is_first_match, deliver_exact_reachable "
+                                 "(deliver_exact for every reachable storage under Window, no uniqueness hypothesis left); window_needed_counterexample.")
